@@ -14,6 +14,6 @@ for c in "$@"; do
   VERIF_REPO=$wt ./verif check $c --tier ${SEED_TIER:-quick} 2>/dev/null | grep -E "^(VIOLATION|INCONCLUSIVE|$c:)" | cut -c1-400 | tee -a work/logs/recheck-$id.txt
 done
 tag=alt-$(python3 -c "import hashlib,sys;print(hashlib.sha1(sys.argv[1].encode()).hexdigest()[:10])" $wt)
-rm -rf work/target-$tag work/target-$tag-rs work/driver-$tag work/rs/$tag work/py/$tag
+rm -rf work/target-$tag work/target-$tag-rs work/driver-$tag work/rs/$tag work/py/$tag work/cxx/$tag work/java/$tag work/build-rs-$tag.lock
 git -C /repo worktree remove --force $wt; rm -rf $wt
 git checkout -- evidence 2>/dev/null
